@@ -72,7 +72,7 @@ class Tacd:
                     s.connect(self.listen[5:])
                 else:
                     host, port = self.listen.rsplit(":", 1)
-                    s = socket.create_connection((host, int(port)), timeout=0.5)
+                    s = socket.create_connection((host.strip("[]"), int(port)), timeout=0.5)
                 s.close()
                 return True
             except OSError:
@@ -107,7 +107,7 @@ def connect(listen, timeout=3.0):
         s.connect(listen[5:])
         return s
     host, port = listen.rsplit(":", 1)
-    return socket.create_connection((host, int(port)), timeout=timeout)
+    return socket.create_connection((host.strip("[]"), int(port)), timeout=timeout)
 
 
 def handshake(listen, alpn, server_name="example.org", timeout=4.0, max_tls12=False):
